@@ -19,7 +19,7 @@ RULE = ("A case = scenario (2..4 actors x 1..4 IF.LDM.3 / IF.LDM.4 calls from ad
         "the in-memory back-end with the reactive service / maintenance classes, two objects pre-loaded) + schedule (which runnable actor "
         "continues at each preemption point: opcode events in dictionary_database.py, ldm_service*.py, ldm_maintenance*.py, if_ldm_3/4.py "
         "and lock operations). Quick: hypothesis schedules (sparse priority changes and dense) over drawn scenarios plus every "
-        "single-preemption schedule of 11 fixed scenarios; thorough: 22 fixed scenarios and many more random ones. Oracle: the per-actor "
+        "single-preemption schedule of 12 fixed scenarios; thorough: 22 fixed scenarios and many more random ones. Oracle: the per-actor "
         "responses and the final store / registries must equal those of some sequential order of the same calls respecting real-time "
         "precedence (exhaustive memoised search); identifiers unique; a query or notification returns only objects present at some instant "
         "of the call and all objects present throughout; no actor raises; no deadlock. Non-trivial = schedule with a context switch inside "
@@ -81,6 +81,8 @@ def build_world(s, pre16=False):
 class Model:
     """Sequential reference LDM (content only)."""
 
+    lenient_add = False     # second pass only: an add may succeed although its provider deregistered while the call was in flight
+
     def __init__(self, pre, pre16=False):
         self.objs = {i: o for i, o in pre}
         self.next_id = max(self.objs) + 1 if self.objs else 0
@@ -95,13 +97,14 @@ class Model:
     def copy(self):
         m = Model([])
         m.objs, m.next_id, m.providers, m.consumers, m.subs = dict(self.objs), self.next_id, set(self.providers), set(self.consumers), dict(self.subs)
+        m.lenient_add = self.lenient_add
         return m
 
-    def apply(self, call):
+    def apply(self, call, want=None):
         k = call[0]
         if k == "add":
             _, app, obj = call
-            if app not in self.providers:
+            if app not in self.providers and not (self.lenient_add and want is not None and isinstance(want, int) and want >= 0):
                 return -1
             i = self.next_id
             self.next_id += 1
@@ -156,7 +159,7 @@ class Model:
         return None      # gc, attend
 
 
-def linearizable(history, pre, final_key, pre16=False):
+def linearizable(history, pre, final_key, pre16=False, lenient_add=False):
     """history: list of dict(actor, idx, start, end, call, result).  Memoised DFS."""
     n_act = max(h["actor"] for h in history) + 1 if history else 0
     per = [[h for h in history if h["actor"] == a] for a in range(n_act)]
@@ -179,13 +182,15 @@ def linearizable(history, pre, final_key, pre16=False):
             if h["start"] > min_end:
                 continue
             m2 = model.copy()
-            res = m2.apply(h["call"])
+            res = m2.apply(h["call"], h["result"])
             if h["call"][0] in ("gc", "attend") or res == h["result"]:
                 np = tuple(p + 1 if i == a else p for i, p in enumerate(pos))
                 if dfs(np, m2):
                     return True
         return False
-    return dfs(tuple(0 for _ in range(n_act)), Model(pre, pre16))
+    m0 = Model(pre, pre16)
+    m0.lenient_add = lenient_add
+    return dfs(tuple(0 for _ in range(n_act)), m0)
 
 
 _WARM = [False]
@@ -329,7 +334,13 @@ def _run_schedule(case):
                              tuple(sum(1 for x in ldm.ldm_service.subscriptions if hash(x.subscription_request) == w["sub_ids"][t]) for t in ("S0", "SUB", "SUB16")))
                 if not linearizable(history, w["pre"], final_key, bool(case.get("pre16"))):
                     kinds = sorted({h["call"][0] for h in history if h["call"][0] not in ("gc", "attend", "request")})
-                    vs.append(violation(ID, "C16/not-linearizable:%s" % "+".join(kinds), "no sequential order of the calls explains the responses and the final state; history: %s; final objects %r providers %r consumers %r" % (
+                    if linearizable(history, w["pre"], final_key, bool(case.get("pre16")), lenient_add=True):
+                        # the only thing no sequential order explains: an add that passed the registration check, lost its provider to a
+                        # concurrent deregistration, and stored its object afterwards
+                        sig = "C16/add-stored-after-concurrent-provider-deregistration"
+                    else:
+                        sig = "C16/not-linearizable:%s" % "+".join(kinds)
+                    vs.append(violation(ID, sig, "no sequential order of the calls explains the responses and the final state; history: %s; final objects %r providers %r consumers %r" % (
                         [(h["actor"], h["op"], h["start"], h["end"], h["result"] if not isinstance(h["result"], tuple) else len(h["result"])) for h in history], sorted(final_objs), sorted(ldm.ldm_service.get_data_provider_its_aid()),
                         sorted(ldm.ldm_service.get_data_consumer_its_aid()))))
         inflight = any(a["start"] < b["end"] and b["start"] < a["end"] for i, a in enumerate(history) for b in history[i + 1:] if a["actor"] != b["actor"])
@@ -426,7 +437,7 @@ def jobs(tier, seed):
     if tier == "quick":
         for s in range(10):
             js.append({"fn": "vf.props.c16:job_random", "args": {"n": 250, "seed": seed * 1000 + s}})
-        for sc in (0, 1, 2, 3, 12, 13, 14, 15, 17, 18, 20):
+        for sc in (0, 1, 2, 3, 12, 13, 14, 15, 17, 18, 20, 21):
             js.append({"fn": "vf.props.c16:job_systematic", "args": {"scenario_i": sc, "shard": 0, "nshards": 1}})
     else:
         for s in range(16):
